@@ -225,6 +225,8 @@ def Sys.init (t0 nprox seq0 : Nat) : Sys :=
 inductive COp where
   | call (p : Nat) (d : Data)     -- remote method call on proxy p whose result is `d`
   | inext (i : Nat)               -- `next(it)` on client iterator i
+  | inextLost (i : Nat)           -- `next(it)` while the connection breaks during the request: `_pyroInvoke`
+                                  --   (client.py 278-286) releases the connection and raises ConnectionClosedError
   | iclose (i : Nat)              -- `it.close()`
   | pcall (p : Nat)               -- an unrelated remote call on proxy p (advances `_pyroSeq`)
   | prelease (p : Nat)            -- `proxy._pyroRelease()`: the server sees the connection end
@@ -288,6 +290,24 @@ def cstep (cfg : Settings) (mask : Nat) (s : Sys) : COp → Sys × CRes
             -- 537: pyroseq += 1 (not masked); 540-544: StopIteration drops the proxy
             let it' : Iter := { it with pyroseq := it.pyroseq + 1, proxy := if r = .stop then none else some p }
             ({ s2 with iters := s2.iters.set i it' }, .srv r)
+  | .inextLost i =>
+    match s.iters[i]? with
+    | none => (s, .bad)
+    | some it =>
+      match it.proxy with
+      | none => (s, .srv .stop)
+      | some p =>
+        match s.proxies[p]? with
+        | none => (s, .bad)
+        | some px =>
+          match px.conn with
+          | none => (s, .connClosed)
+          | some c =>
+            -- the request never reaches the daemon; the server sees the connection end.  ConnectionClosedError is not
+            -- one of the exceptions after which the iterator drops its proxy (extracted fact): it stays usable
+            let s1 := { s with proxies := s.proxies.set p { conn := none, seq := bumpSeq mask px.seq },
+                               iters := s.iters.set i { it with pyroseq := it.pyroseq + 1 } }
+            ((s1.server cfg (.disconnect c)).1, .connClosed)
   | .iclose i =>
     match s.iters[i]? with
     | none => (s, .bad)
